@@ -52,13 +52,13 @@ def expected_leaf(uri, prefix):
 
 def check_scoping(ctx, case, want_agree=True):
     xctx = XmlContext()
-    for prefix in ("p", ""):
-        text = hb.scoping_doc(case["levels"], prefix)
+    for prefix, decoys in (("p", False), ("", False), ("p", True), ("", True)):
+        text = hb.scoping_doc(case["levels"], prefix, decoys)
         exp = expected_leaf(case["scope"][prefix], prefix)
         got = {}
         for h in ("native", "lxml"):
             st, obj, nwarn = hb.parse(text, h, xctx)
-            ctx.case(("scope", str(case["levels"]), prefix, h))
+            ctx.case(("scope", str(case["levels"]), prefix, decoys, h))
             if st != "ok":
                 ctx.violation(f"{h} handler failed on a well-formed document: {type(obj).__name__}: {obj}", {"levels": case["levels"], "text": text})
                 continue
